@@ -884,6 +884,8 @@ fn draw_n(c: &mut Case) -> usize {
 
 fn gen_col(c: &mut Case, n: usize, kind: &str) -> Vec<f64> {
     match kind {
+        // pairwise distinct values in an order that drives the library's argsort into its most lopsided partitions
+        "sortkill" => scverif::gen::sort_killer(n, c.rng.bool(0.5)),
         "cont" => {
             let (s, off) = (*c.rng.pick(&[1.0, 1.0, 1.0, 1e-3, 1e3, -1.0]), *c.rng.pick(&[0.0, 0.0, 0.0, 10.0, -100.0]));
             (0..n).map(|_| c.rng.uni(-1.0, 1.0) * s + off).collect()
@@ -916,9 +918,9 @@ fn gen_col(c: &mut Case, n: usize, kind: &str) -> Vec<f64> {
 
 fn gen_x(c: &mut Case, n: usize, p: usize, mode: &str) -> (Mat, Vec<String>) {
     let pool: &[&str] = match mode {
-        "distinct" => &["cont", "normal", "grid"],
+        "distinct" => &["cont", "normal", "grid", "sortkill"],
         "int" => &["int", "int", "bin", "negint", "half"],
-        _ => &["cont", "normal", "dec2", "dec1", "int", "int", "bin", "negint", "half", "const", "grid", "dup"],
+        _ => &["cont", "normal", "dec2", "dec1", "int", "int", "bin", "negint", "half", "const", "grid", "dup", "sortkill"],
     };
     let mut cols: Vec<Vec<f64>> = Vec::new();
     let mut kinds: Vec<String> = Vec::new();
